@@ -306,6 +306,18 @@ def check_real_class(name, mk):
             bad.append((f'not-reproducible:{name}', f'two {name} models with seed 7 produce different streams'))
         if np.array_equal(a1, a2) and a1.std() > 0:
             bad.append((f'no-advance:{name}', f'successive sample calls of a seeded {name} return the same values'))
+        # history: re-seeding restarts the stream; dropping the seed hands control to the global generator
+        m1.set_random_state(7)
+        a3 = np.asarray(m1.sample(5))
+        if not np.array_equal(a3, a1):
+            bad.append((f'reseed-does-not-restart:{name}', f'{name}: sample; set_random_state(7); sample does not reproduce the first seeded sample'))
+        m1.set_random_state(None)
+        np.random.seed(4321)
+        n1 = np.asarray(m1.sample(4))
+        np.random.seed(4321)
+        n2 = np.asarray(mk(None).sample(4))
+        if not np.array_equal(n1, n2):
+            bad.append((f'unseed-not-global:{name}', f'{name}: after set_random_state(None) sampling is not driven by the global generator'))
         # a different global state must not change a seeded stream
         np.random.seed(999)
         m3 = mk(7)
